@@ -177,16 +177,19 @@ add("C16",
 add("C17",
     "PARTIAL. Coq theorems over literal models of the validator fragments the property names (Model/VCode.v): validate_version_nums is "
     "total and costs at most 100 E010 errors and 101 iterations per version key for all inputs in both build modes (constant generated "
-    "from the source), Inventory::new(..).unwrap() is guarded for every document, get_version / content_paths unwraps, PrettyPrintSet, "
-    "ContentPathsIter termination, repository iterator continues after an error, prefix hashing cost, Display linear - each proved "
-    "outside the recorded known classes with a witness inside. Correspondence: error counts / panic "
+    "from the source), Inventory::new(..).unwrap() is guarded for every document, get_version unwraps guarded by the head check, the "
+    "content-path comparison and PrettyPrintSet total for all inputs, the cross-inventory checks return a verdict for all admissible "
+    "inventories in both build modes, is_uri total for every answer function of the third-party URI parser and never calling it on a value "
+    "without a scheme, ContentPathsIter termination, repository iterator continues after an error, Display linear; only the prefix-hashing "
+    "cost is proved outside a known class (with a witness inside). Correspondence: error counts / panic "
     "sites of the real validator vs the model on three exactly-abstractable families. Search: object roots mutated at byte, JSON and directory "
     "level validated by the real code in child processes under wall-clock and address-space limits; oracle = panic, abort, timeout, memory "
     "blow-up, repository validation not reaching the remaining objects.",
     "Panic freedom, running time and memory of the real process are runtime facts: the theorems cover arithmetic and guard logic only; the rest is "
-    "shown on executed inputs. Known findings: empty manifest entry, empty PrettyPrintSet (debug), quadratic path check, uriparse colon "
-    "segment. Blank id, version gaps (v400000000, v4294967295) and paddings above 65535 digits - repaired by b116ae5, 719e6a5, f842f41, "
-    "d5a9e2d - are must-pass regression inputs.",
+    "shown on executed inputs. Known finding: quadratic path check (quadratic-path). Blank id, version gaps (v400000000, v4294967295), "
+    "paddings above 65535 digits, the empty PrettyPrintSet of debug builds, a manifest entry with no content paths and ids / addresses "
+    "without a scheme whose first segment contains ':' - repaired by b116ae5, 719e6a5, f842f41, d5a9e2d, 547c92e, 7c90d82, 389bfd0 - are "
+    "must-pass regression inputs (verdict required). Trusted in addition: the panic set of uriparse 0.6.4 read off its source, approximated from above.",
     "machine-checked proof in Coq (cost and guard lemmas) + resource-limited search over mutated objects")
 
 add("C19",
@@ -263,8 +266,8 @@ add("C06",
     "applied in the model and to a scratch copy, model verdict = verdict of the real CLI (exit status 2, with and without fixity, by id, by "
     "path, repository-wide). Search: exit status != 2 or no error line for a corruption outside the known classes.",
     "Trusted: Coq kernel, Model/ObjTree.v, TreeValidate.v, Corrupt.v, the abstraction in vplib/corruptlib.py, digest collision freedom. "
-    "Known findings (spec-conformant, W010): contentless-version-dir, version-inventory-dropped. A validator panic in uriparse caused by an "
-    "inserted byte is C17's known finding uri-colon-segment and is counted there.",
+    "Known findings (spec-conformant, W010): contentless-version-dir, version-inventory-dropped. The inserted byte that leaves the user address without a valid scheme (former C17 known "
+    "finding uri-colon-segment, repaired by 389bfd0) is a must-pass corruption: a validator panic anywhere is a violation.",
     "machine-checked proof in Coq (all trees x all corruption kinds, digest injectivity) + corruption enumeration against the real CLI")
 
 
@@ -275,8 +278,13 @@ add("C04",
     "every mutating call and a stop oracle): for every tree satisfying commit_pre and EVERY single fault position (or none) the main object "
     "is afterwards the old one or the one of the fault-free run, success is reported only for the new one, and while the version directory "
     "is not installed the object is old and all staged content is still staged; same for a stop request at every position (existing "
-    "objects). Theorems assume a commit that does not change the inventory type; upgrade_object (all variants), the stop request on a first "
-    "version, retry-succeeds / reset-succeeds and validity of the fault-free result are decided by the correspondence only. "
+    "objects). C04_fault_atomic_any_type / C04_stop_atomic_any_type prove the same for the commit that changes the inventory type (upgrade of "
+    "an existing object, with or without other staged changes): write_new_version's declaration swap and its rollback (unlink the new "
+    "declaration, write back the saved root inventory pair, rename the version directory back) at every position, under the decidable "
+    "hypothesis decl_swap_ok (no version directory named like a declaration, no declaration listed twice - each shown necessary for the model "
+    "by an evaluated witness) instead of same_type. The prefix of upgrade_object before commit_inner (it only acts inside the staged object), "
+    "the stop request on a first version and retry-succeeds / reset-succeeds are decided by the correspondence only; the validity of the "
+    "fault-free result is C01_commit_yields_written_object. "
     "Correspondence: real CLI under strace - the fault-free trace equals the model's step log; then EVERY mutating call of every scenario "
     "(new object, new version, dedup + orphans, delete-only, nested, upgrades; layouts 0004/0002; default/external staging) is failed once "
     "(EIO/ENOSPC/EACCES rotated; all three in the thorough tier) and hit once by SIGINT; outcome class and exit status match the model; "
@@ -293,11 +301,12 @@ add("C05",
     "evaluated on the abstraction of every real scenario) and EVERY kill position: every earlier version directory is unchanged, every "
     "content file of the new version is complete in the staged object or in the main object, and the main object is old, new, or rejected "
     "by the structural validator obj_validb (unknown version directory, sidecar/inventory mismatch, partial inventory, head copy differs). "
+    "C05_kill_safe_any_type proves the same for type-changing commits (upgrade): the extra kill states - new inventory without its "
+    "declaration, an empty new declaration, both declarations present - are each proved rejected; hypothesis decl_swap_ok instead of same_type. "
     "Correspondence: SIGKILL injected at every mutating call of every scenario and at sampled write calls inside inventory, sidecar and "
     "declaration files; the three clauses are evaluated on the real trees, invalid states must be rejected by BOTH the independent "
     "validator and rocfl validate; outcome classes match the model at every aligned position.",
-    "Process-kill model (calls already made are durable and ordered) is the property's stated model and is assumed. Type-changing commits "
-    "(upgrade) are correspondence-checked only. After every kill of the dedup scenarios the stale lock is removed and the commit retried: a "
+    "Process-kill model (calls already made are durable and ordered) is the property's stated model and is assumed. After every kill of the dedup scenarios the stale lock is removed and the commit retried: a "
     "successful retry must give a valid object with every ingested content readable, a refused one must leave every ingested content in "
     "staging or in the object (recovery clause).",
     "machine-checked proof in Coq (all kill positions) + kill enumeration of the real commit under strace")
